@@ -9,7 +9,7 @@ V=$(pwd)
 . "$V/env.sh"
 B="$V/.build"
 REPO="${VERIF_REPO:-/repo}"
-if [ ! -f "$B/geth/.stamp" ] || [ ! -f "$B/rtoverlay/overlay.json" ] || [ ! -x "$B/instr" ]; then "$V/setup.sh" >&2; fi
+if [ ! -f "$B/geth/.stamp" ] || [ ! -f "$B/rtoverlay/overlay.json" ] || [ ! -x "$B/instr" ] || [ "$V/rtoverlay/mkoverlay.py" -nt "$B/rtoverlay/overlay.json" ]; then "$V/setup.sh" >&2; fi
 OUT="$(realpath -m "${1:-$B/sim.test}")"
 TAGS="verif${2:+,$2}"
 KEY=$(echo -n "$REPO" | md5sum | cut -c1-10)
